@@ -7,6 +7,8 @@ Loader results are symbolic tags `(loader name, sample index, call number)`.
 import KDVerif.Model.ModeWrapper
 import KDVerif.Lemmas.ModeWrapperPlan
 import KDVerif.Lemmas.ModeWrapperGet
+import KDVerif.Model.C01Spec
+import KDVerif.Lemmas.C01Extra
 
 namespace KDVerif.C01
 open KDVerif.ModeWrapper
@@ -326,5 +328,619 @@ theorem addItem_has (mode item : String) (h : hasItem mode item = true) : addIte
 example : plan [["x", "class"]] ["class", "x"] = [.single "class" 0, .fused ["x", "class"] [1, 0]] := by decide
 
 example : sliceRange 5 (some (-2)) none (-2) = [3, 1] := by decide
+
+
+/-! ## Added after the clause audit -/
+
+/-! ### slices: closed form (clause "slices … follow Python sequence semantics") -/
+
+/-- **`range(n)[a:b:step]` in closed form.** For every dataset size, every start/stop (absent, negative,
+    out of range) and every non-zero step, the indices a slice expands to are
+    `s0, s0 + step, s0 + 2·step, …` (`cnt` many), where `s0 = pyStart n a step` and
+    `cnt = pyCount n a b step = len(range(s0, s1, step))` are Python's `slice.indices` / range-length rules
+    written out in `Model/C01Spec.lean` independently of the model's fuel-driven `rangeGo`. -/
+theorem slice_closed_form (n : Nat) (a b : Option Int) (step : Int) (hstep : step ≠ 0) :
+    sliceRange n a b step =
+      (List.range (pyCount n a b step)).map (fun (k : Nat) => pyStart n a step + (k : Int) * step) :=
+  c01x_sliceRange_closed n a b step hstep
+
+example : pyStart 10 (some (-3)) 2 = 7 ∧ pyStop 10 none 2 = 10 ∧ pyCount 10 (some (-3)) none 2 = 2 ∧
+    sliceRange 10 (some (-3)) none 2 = [7, 9] := by decide
+example : pyStart 5 (some 100) (-2) = 4 ∧ pyStop 5 (some (-100)) (-2) = -1 ∧ pyCount 5 (some 100) (some (-100)) (-2) = 3 ∧
+    sliceRange 5 (some 100) (some (-100)) (-2) = [4, 2, 0] := by decide
+
+/-- `mw[:]` visits `0, 1, …, n-1` -/
+theorem slice_full_forward (n : Nat) :
+    sliceRange n none none 1 = (List.range n).map (fun (k : Nat) => (k : Int)) := by
+  rw [c01x_sliceRange_closed n none none 1 (by decide)]; exact c01x_full_forward n
+
+/-- `mw[::-1]` visits `n-1, …, 1, 0` -/
+theorem slice_full_reversed (n : Nat) :
+    sliceRange n none none (-1) = (List.range n).reverse.map (fun (k : Nat) => (k : Int)) := by
+  rw [c01x_sliceRange_closed n none none (-1) (by decide)]; exact c01x_full_backward n
+
+example : sliceRange 4 none none 1 = [0, 1, 2, 3] ∧ sliceRange 4 none none (-1) = [3, 2, 1, 0] := by decide
+
+/-- a slice is strictly increasing for `step > 0`, strictly decreasing for `step < 0`, never repeats an index and
+    never selects more than `n` samples -/
+theorem slice_sorted_nodup (n : Nat) (a b : Option Int) (step : Int) (hstep : step ≠ 0) :
+    (0 < step → (sliceRange n a b step).Pairwise (· < ·)) ∧
+    (step < 0 → (sliceRange n a b step).Pairwise (· > ·)) ∧
+    (sliceRange n a b step).Nodup ∧
+    (sliceRange n a b step).length = pyCount n a b step ∧ pyCount n a b step ≤ n := by
+  rw [c01x_sliceRange_closed n a b step hstep]
+  unfold pySlice
+  have hlt := fun hs => c01x_affine_pairwise_lt (pyCount n a b step) (pyStart n a step) step hs
+  have hgt := fun hs => c01x_affine_pairwise_gt (pyCount n a b step) (pyStart n a step) step hs
+  refine ⟨hlt, hgt, ?_, by simp, c01x_pyCount_le n a b step hstep⟩
+  rw [List.nodup_iff_pairwise_ne]
+  by_cases hs : 0 < step
+  · exact List.Pairwise.imp (fun h => by omega) (hlt hs)
+  · exact List.Pairwise.imp (fun h => by omega) (hgt (by omega))
+
+
+
+/-! ### index lists, slices, iteration, len (clause "slices, index lists, iteration and len follow Python
+sequence semantics") — model-level versions of the driver's dispatch live in `Model/C01Spec.lean` -/
+
+/-- every request costs the same number of loader invocations (`callsPer mw` = number of planned loaders that are
+    not `index` / `ctx.*` getters), whatever the index — this is what makes the call numbers below explicit -/
+theorem request_cost (s : Stack) (mw : MW) (c : Nat) (i : Int) : (getOne s mw c i).2 = c + callsPer mw :=
+  c01x_getOne_snd s mw c i
+
+/-- **index list**: `mw[[i₀, i₁, …]]` is the list whose `k`-th element is exactly `mw[i_k]` — an ordinary
+    single-index request (own empty ctx, see `getOne`) made after `k` complete requests — in the order of the
+    list, duplicates and negative entries included -/
+theorem index_list_elementwise (s : Stack) (mw : MW) (c : Nat) (is : List Int) :
+    getList s mw c is =
+      (Out.list (is.mapIdx (fun k i => (getOne s mw (c + k * callsPer mw) i).1)), c + is.length * callsPer mw) := by
+  unfold getList
+  rw [← c01x_getMany_eq_mapIdx, ← c01x_getMany_snd]
+
+/-- **slice**: `mw[a:b:step]` is the list of `mw[s0 + k·step]` for `k = 0 … cnt-1` with Python's `s0` / `cnt`
+    (see `slice_closed_form`), each an ordinary single-index request, in that order -/
+theorem slice_elementwise (s : Stack) (mw : MW) (c : Nat) (a b : Option Int) (step : Int) (hstep : step ≠ 0) :
+    getSlice s mw c a b step =
+      (Out.list ((List.range (pyCount s.len a b step)).map (fun (k : Nat) =>
+          (getOne s mw (c + k * callsPer mw) (pyStart s.len a step + (k : Int) * step)).1)),
+       c + pyCount s.len a b step * callsPer mw) := by
+  unfold getSlice
+  simp only [c01x_getMany_snd, c01x_getMany_eq_mapIdx, c01x_sliceRange_closed s.len a b step hstep]
+  unfold pySlice
+  simp only [List.length_map, List.length_range]
+  congr 2
+  apply List.ext_getElem?
+  intro k
+  simp only [List.getElem?_mapIdx, List.getElem?_map]
+  cases h : (List.range (pyCount s.len a b step))[k]? with
+  | none => rfl
+  | some v =>
+    have := (List.getElem?_eq_some_iff.mp h).2
+    simp only [List.getElem_range] at this
+    subst this
+    rfl
+
+/-- **iteration**: `list(iter(mw))` is `[mw[0], mw[1], …, mw[len-1]]` in this order, each an ordinary
+    single-index request; it stops after exactly `len(mw)` samples -/
+theorem iteration_elementwise (s : Stack) (mw : MW) (c : Nat) :
+    (iterAll s mw c).1 =
+      (List.range s.len).map (fun (k : Nat) => (getOne s mw (c + k * callsPer mw) (k : Int)).1) ∧
+    (iterAll s mw c).1.length = lenOf s mw ∧
+    (iterAll s mw c).2 = c + s.len * callsPer mw := by
+  refine ⟨c01x_iterAll_eq s mw c, ?_, ?_⟩
+  · rw [c01x_iterAll_eq]; simp [lenOf]
+  · unfold iterAll lenOf; rw [c01x_getMany_snd]; simp
+
+/-- iterating is the same as the full slice `mw[:]` -/
+theorem iteration_is_full_slice (s : Stack) (mw : MW) (c : Nat) :
+    getSlice s mw c none none 1 = (Out.list (iterAll s mw c).1, (iterAll s mw c).2) := by
+  unfold getSlice iterAll lenOf
+  rw [slice_full_forward]
+
+/-- **len**: `len(mw)` is the wrapped dataset's length, and it is the number of samples that iteration, `mw[:]`
+    and `mw[::-1]` deliver; a slice never delivers more -/
+theorem len_semantics (s : Stack) (mw : MW) (c : Nat) :
+    lenOf s mw = s.len ∧
+    (iterAll s mw c).1.length = lenOf s mw ∧
+    (getMany s mw c (sliceRange s.len none none 1)).1.length = lenOf s mw ∧
+    (getMany s mw c (sliceRange s.len none none (-1))).1.length = lenOf s mw ∧
+    (∀ a b step, step ≠ 0 → (getMany s mw c (sliceRange s.len a b step)).1.length ≤ lenOf s mw) := by
+  refine ⟨rfl, (iteration_elementwise s mw c).2.1, ?_, ?_, ?_⟩
+  · rw [c01x_getMany_length, slice_full_forward]; simp [lenOf]
+  · rw [c01x_getMany_length, slice_full_reversed]; simp [lenOf]
+  · intro a b step hstep
+    rw [c01x_getMany_length]
+    have := slice_sorted_nodup s.len a b step hstep
+    unfold lenOf; omega
+
+/-- non-vacuity: a 2-loader wrapper over 5 samples; `mw[[4, -1]]` asks loaders `x` and `y` for sample 4 twice
+    (calls 0,1 and 2,3); `mw[3::-2]` visits 3 then 1; iteration visits 0..4 -/
+example :
+    let s : Stack := ⟨[], [], ["x", "y"], [], 5, false⟩
+    let mw : MW := ⟨["x", "y"], [.single "x" 0, .single "y" 1], false, false⟩
+    getList s mw 0 [4, -1] =
+      (.list [.tuple [.tag "x" 4 0, .tag "y" 4 1], .tuple [.tag "x" 4 2, .tag "y" 4 3]], 4) ∧
+    getSlice s mw 0 (some 3) none (-2) =
+      (.list [.tuple [.tag "x" 3 0, .tag "y" 3 1], .tuple [.tag "x" 1 2, .tag "y" 1 3]], 4) ∧
+    pyStart 5 (some 3) (-2) = 3 ∧ pyCount 5 (some 3) none (-2) = 2 ∧ callsPer mw = 2 ∧
+    (iterAll s mw 0).1.length = 5 := by
+  refine ⟨by rfl, by rfl, by decide, by decide, by rfl, by rfl⟩
+
+
+
+/-! ### `'ctx.<key>'` gives what earlier items recorded for this sample -/
+
+/-- **`ctx.<key>` — exact, in loader order, every stack.** Let the wrapper be built by the constructor, let mode
+    position `p` hold a `ctx.<key>` item (not declared inside a fused group), and let `e` be the LAST loader planned
+    before that getter which records `<key>` (`recordsKey`: `e` really invokes a loader and `s.records` lists
+    `(its name, key)`); this is the property's domain "placed after the item that records the key".
+    Then position `p` of the sample holds exactly the value that loader recorded for THIS (normalised) index in THIS
+    request — the tag `(e's loader, idx, call number of e's own invocation)` — hence never a `KeyError`; and when
+    `e` is an ordinary single loader this is literally the value `e`'s loader returned at its turn. -/
+theorem ctx_item_gives_recorded_value (s : Stack) (mode : String) (rc : Bool) (mw : MW)
+    (h : ctor s mode rc = .ok mw) (c : Nat) (idx : Int)
+    (p : Nat) (it : String) (hit : mw.items[p]? = some it) (hctx : isCtx it = true)
+    (hno : ∀ f ∈ s.fused, it ∉ f)
+    (pre1 pre2 post : List Entry) (e : Entry)
+    (hdec : mw.entries = pre1 ++ e :: (pre2 ++ Entry.single it p :: post))
+    (hrec : recordsKey s e (ctxKey it) = true)
+    (hlast : ∀ e' ∈ pre2, recordsKey s e' (ctxKey it) = false) :
+    (unpacked s mw c idx)[p]? =
+      some (Val.tag (entryName e) (normIndex s idx) (c + (pre1.filter isLoading).length)) ∧
+    c + (pre1.filter isLoading).length < (getOne s mw c idx).2 ∧
+    (∀ r q, e = Entry.single r q →
+      (unpacked s mw c idx)[p]? =
+        some (runEntry s (normIndex s idx) (stAfter s (normIndex s idx) ⟨c, []⟩ pre1) e).1) := by
+  obtain ⟨_, he, _, hnd, _⟩ := ctor_ok s mode rc mw h
+  obtain ⟨hu, hcall⟩ := ctor_unpacked s mode rc mw h c idx
+  rw [he] at hdec
+  have hv := c01x_unpacked_ctx_recorded s s.fused mw.items hnd c (normIndex s idx) p it hit hctx hno
+    pre1 pre2 post e hdec hrec hlast
+  have hl := (c01x_recordsKey_loading s e _ hrec).1
+  refine ⟨by rw [hu]; exact hv, ?_, ?_⟩
+  · have hw := call_window s (normIndex s idx) ⟨c, []⟩ pre1 (pre2 ++ Entry.single it p :: post) e hl
+    rw [← hdec, stAfter_call] at hw
+    rw [hcall]; exact hw.2
+  · intro r q hr
+    subst hr
+    rw [hu, hv]
+    simp only [isLoading, Bool.and_eq_true, Bool.not_eq_true', beq_eq_false_iff_ne, ne_eq] at hl
+    rw [runEntry_loadable_val s _ _ r q hl.1 hl.2, stAfter_call]
+    rfl
+
+/-- **`ctx.<key>` — in mode terms, every stack: never a `KeyError`, never another sample's value.**
+    If some EARLIER mode position `q < p` holds a loadable item `r` that records `<key>` (`(r, key) ∈ s.records`;
+    `r` and the `ctx` item not declared inside a fused group, so each is served by its own loader), then position `p`
+    holds a value recorded under `<key>` by a loader of this stack for THIS index during THIS request. -/
+theorem ctx_item_never_keyError (s : Stack) (mode : String) (rc : Bool) (mw : MW)
+    (h : ctor s mode rc = .ok mw) (c : Nat) (idx : Int)
+    (p q : Nat) (it r : String) (hqp : q < p)
+    (hit : mw.items[p]? = some it) (hctx : isCtx it = true) (hno : ∀ f ∈ s.fused, it ∉ f)
+    (hr : mw.items[q]? = some r) (hr1 : r ≠ "index") (hr2 : isCtx r = false) (hnor : ∀ f ∈ s.fused, r ∉ f)
+    (hrec : (r, ctxKey it) ∈ s.records) :
+    ∃ n call, (n, ctxKey it) ∈ s.records ∧ c ≤ call ∧ call < (getOne s mw c idx).2 ∧
+      (unpacked s mw c idx)[p]? = some (Val.tag n (normIndex s idx) call) := by
+  obtain ⟨_, he, _, hnd, _⟩ := ctor_ok s mode rc mw h
+  obtain ⟨hu, hcall⟩ := ctor_unpacked s mode rc mw h c idx
+  obtain ⟨pre, post, hdec⟩ := List.append_of_mem (c01x_plan_single_mem s.fused mw.items hnd p it hit hno)
+  have hm := c01x_recorder_before s.fused mw.items hnd p q it r hqp hr hnor pre post hdec
+  have hrk : recordsKey s (Entry.single r q) (ctxKey it) = true := by
+    rw [c01x_recordsKey_eq]
+    simp only [isLoading, entryName, Bool.and_eq_true, Bool.not_eq_true', beq_eq_false_iff_ne, ne_eq,
+      List.any_eq_true, beq_iff_eq]
+    exact ⟨⟨hr1, hr2⟩, (r, ctxKey it), hrec, rfl, rfl⟩
+  obtain ⟨e, _, hre, call, h1, h2, hv⟩ := c01x_unpacked_ctx_some s s.fused mw.items hnd c (normIndex s idx) p it
+    hit hctx hno pre post hdec ⟨_, hm, hrk⟩
+  exact ⟨entryName e, call, (c01x_recordsKey_loading s e _ hre).2, h1, by rw [hcall]; exact h2, by rw [hu]; exact hv⟩
+
+/-- **`ctx.<key>` — in mode terms, stacks without fused operations: the getter repeats the recorder's position.**
+    If `q < p`, item `r` at `q` records `<key>` and no item strictly between `q` and `p` records `<key>` (the
+    recorder is not shadowed), then positions `p` and `q` of the sample hold the SAME value: the one `r`'s loader
+    returned for this index in this request. -/
+theorem ctx_item_equals_recorder_unfused (s : Stack) (mode : String) (rc : Bool) (mw : MW)
+    (h : ctor s mode rc = .ok mw) (hfu : s.fused = []) (c : Nat) (idx : Int)
+    (p q : Nat) (it r : String) (hqp : q < p)
+    (hit : mw.items[p]? = some it) (hctx : isCtx it = true)
+    (hr : mw.items[q]? = some r) (hr1 : r ≠ "index") (hr2 : isCtx r = false)
+    (hrec : (r, ctxKey it) ∈ s.records)
+    (hlast : ∀ (q' : Nat) (r' : String), q < q' → q' < p → mw.items[q']? = some r' →
+      r' = "index" ∨ isCtx r' = true ∨ (r', ctxKey it) ∉ s.records) :
+    ∃ call, c ≤ call ∧ call < (getOne s mw c idx).2 ∧
+      (unpacked s mw c idx)[q]? = some (Val.tag r (normIndex s idx) call) ∧
+      (unpacked s mw c idx)[p]? = some (Val.tag r (normIndex s idx) call) := by
+  obtain ⟨hu, hcall⟩ := ctor_unpacked s mode rc mw h c idx
+  rw [hu, hcall, hfu]
+  exact c01x_unpacked_ctx_unfused s mw.items c (normIndex s idx) p q it r hqp hit hctx hr hr1 hr2 hrec hlast
+
+/-- non-vacuity (plan level, where mode items can be written down): mode `"x y ctx.seed"`, `x` and `y` both record
+    `seed`; the getter at position 2 delivers `y`'s value (the last recorder), call 1 of this request for sample 3 -/
+example :
+    let s : Stack := ⟨[], [], [], [("x", "seed"), ("y", "seed")], 10, false⟩
+    ctxKey "ctx.seed" = "seed" ∧
+    plan [] ["x", "y", "ctx.seed"] = [.single "x" 0] ++ .single "y" 1 :: ([] ++ .single "ctx.seed" 2 :: []) ∧
+    recordsKey s (.single "y" 1) "seed" = true ∧
+    unpackedOf s [] ["x", "y", "ctx.seed"] 0 3 = [.tag "x" 3 0, .tag "y" 3 1, .tag "y" 3 1] := by
+  refine ⟨by decide, by decide, by decide, ?_⟩
+  have hk : ("ctx.seed".drop 4).copy = "seed" := by decide
+  simp [unpackedOf, plan, runEntries, runEntry, writeBack, isCtx, ctxGet, ctxSet, List.range, List.range.loop, hk]
+
+
+
+/-! ### jointly loaded items: the planner DOES fuse (converse of `plan_fused_mem`) -/
+
+/-- **fusion completeness.** The planner fuses a declared group `f` at the first unclaimed occurrence of its head
+    `f[0]` provided every other member is still unclaimed anywhere in the mode (`findFused`); consequently, for fused
+    declarations the constructor accepts (no duplicate inside a group, groups pairwise disjoint) and ANY mode —
+    any order of the members, other items in between, duplicates — in which every member of a non-empty declared
+    group occurs, the plan contains a joint load `Entry.fused f poss` of exactly that group, with one position per
+    member pointing at that member's item. -/
+theorem fusion_complete (fusedOps : List (List String)) (items : List String)
+    (hnd : ∀ f ∈ fusedOps, hasDup f = false) (hflat : hasDup fusedOps.flatten = false)
+    (f : List String) (hf : f ∈ fusedOps) (hne : f ≠ []) (hall : ∀ o ∈ f, o ∈ items) :
+    ∃ poss, Entry.fused f poss ∈ plan fusedOps items ∧ poss.length = f.length ∧ poss.Nodup ∧
+      ∀ (j q : Nat), poss[j]? = some q → ∃ o, f[j]? = some o ∧ items[q]? = some o := by
+  obtain ⟨poss, hm⟩ := c01x_plan_fuses fusedOps items hnd hflat f hf hne hall
+  have hok := plan_entries_ok fusedOps items hnd _ hm
+  exact ⟨poss, hm, hok.1, plan_fused_positions_distinct fusedOps items hnd f poss hm,
+    fun j q hq => entryOk_fused_get items f poss hok j q hq⟩
+
+/-- **jointly, exactly once.** If moreover the group's head occurs only once in the mode (in particular for a
+    duplicate-free mode), the plan contains exactly ONE joint load of the group: it splits as
+    `pre ++ fused f poss :: post` with no joint load of `f` in `pre` or `post`.
+    (With a repeated head, e.g. mode `"x class x class"` and group `(x, class)`, the code fuses twice.) -/
+theorem fusion_exactly_once (fusedOps : List (List String)) (items : List String)
+    (hnd : ∀ f ∈ fusedOps, hasDup f = false) (hflat : hasDup fusedOps.flatten = false)
+    (h : String) (t : List String) (hf : (h :: t) ∈ fusedOps) (hall : ∀ o ∈ h :: t, o ∈ items)
+    (hone : ∀ i j : Nat, items[i]? = some h → items[j]? = some h → i = j) :
+    ∃ pre poss post, plan fusedOps items = pre ++ Entry.fused (h :: t) poss :: post ∧
+      (∀ poss', Entry.fused (h :: t) poss' ∉ pre) ∧ (∀ poss', Entry.fused (h :: t) poss' ∉ post) :=
+  c01x_plan_fuses_once fusedOps items hnd hflat h t hf hall hone
+
+example : plan [["x", "class"]] ["class", "index", "x"] = [.single "class" 0, .single "index" 1, .fused ["x", "class"] [2, 0]] := by
+  decide
+/-- the repeated-head case: two joint loads -/
+example : plan [["x", "class"]] ["x", "class", "x", "class"] = [.fused ["x", "class"] [0, 1], .fused ["x", "class"] [2, 3]] := by
+  decide
+
+/-- a wrapper built by the constructor has planned a joint load for every declared non-empty group whose members
+    all occur in the mode -/
+theorem ctor_fuses_declared_group (s : Stack) (mode : String) (rc : Bool) (mw : MW) (h : ctor s mode rc = .ok mw)
+    (f : List String) (hf : f ∈ s.fused) (hne : f ≠ []) (hall : ∀ o ∈ f, o ∈ mode.splitOn " ") :
+    ∃ poss, Entry.fused f poss ∈ mw.entries ∧ poss.length = f.length ∧ poss.Nodup ∧
+      ∀ (j q : Nat), poss[j]? = some q → ∃ o, f[j]? = some o ∧ (mode.splitOn " ")[q]? = some o := by
+  obtain ⟨hi, he, _, hnd, hflat⟩ := ctor_ok s mode rc mw h
+  rw [he, hi]
+  exact fusion_complete s.fused _ hnd hflat f hf hne hall
+
+/-- **end to end: "equal what loading them together once yields".** For a wrapper built by the constructor: if every
+    member of a declared (non-empty) fused group occurs in the mode, and occurs there only once (other items may
+    repeat), there is ONE call `c₀` of this request such that EVERY mode position holding a member `o` of the group
+    holds `o`'s component of that one joint call for this sample — each member at its own mode position, whatever
+    the mode order. (With a repeated member the code loads the group, or the member alone, a second time — see the
+    `"x class x class"` example above — so the "occurs once" hypothesis cannot be dropped.) -/
+theorem joint_group_delivered (s : Stack) (mode : String) (rc : Bool) (mw : MW) (h : ctor s mode rc = .ok mw)
+    (c : Nat) (idx : Int) (f : List String) (hf : f ∈ s.fused) (hne : f ≠ []) (hall : ∀ o ∈ f, o ∈ mw.items)
+    (honce : ∀ o ∈ f, ∀ i j : Nat, mw.items[i]? = some o → mw.items[j]? = some o → i = j) :
+    ∃ c₀, c ≤ c₀ ∧ c₀ < (getOne s mw c idx).2 ∧
+      ∀ (q : Nat) (o : String), mw.items[q]? = some o → o ∈ f →
+        (unpacked s mw c idx)[q]? = some (Val.tag o (normIndex s idx) c₀) := by
+  obtain ⟨_, he, _, hnd, hflat⟩ := ctor_ok s mode rc mw h
+  obtain ⟨poss, hm, _, _, _⟩ := fusion_complete s.fused mw.items hnd hflat f hf hne hall
+  have hok := plan_entries_ok s.fused mw.items hnd _ hm
+  rw [← he] at hm
+  obtain ⟨_, _, _, _, _, hj⟩ := getitem_positions s mode rc mw h c idx
+  obtain ⟨_, _, c₀, h1, h2, hall'⟩ := hj f poss hm
+  refine ⟨c₀, h1, h2, ?_⟩
+  intro q o hq ho
+  obtain ⟨j, hpj, hfj⟩ := c01x_fused_pos_of_member mw.items f honce poss hok q o hq ho
+  obtain ⟨o', ho1, _, hv⟩ := hall' j q hpj
+  rw [hfj] at ho1
+  simp only [Option.some.injEq] at ho1
+  subst ho1
+  exact hv
+
+/-- non-vacuity (plan level): mode `"class index x"`, group `(x, class)`: both members carry call 8 -/
+example : unpackedOf ⟨[["x", "class"]], [], [], [], 10, false⟩ [["x", "class"]] ["class", "index", "x"] 7 8 =
+    [Val.tag "class" 8 8, Val.index 8, Val.tag "x" 8 8] := by
+  simp [unpackedOf, plan, planGo, findFused, claim, indexOf, runEntries, runEntry, writeBack, isCtx]
+
+
+
+/-! ### packaging with `return_ctx` -/
+
+/-- the per-sample ctx after all planned loaders of the request ran (it started empty) -/
+def sampleCtx (s : Stack) (mw : MW) (c : Nat) (idx : Int) : Ctx :=
+  (stAfter s (normIndex s idx) ⟨c, []⟩ mw.entries).ctx
+
+/-- **packaging, both settings of `return_ctx`, tied to the value list.** For every wrapper (any plan), the
+    request returns
+    * without `return_ctx`: the bare value when the mode has one item, else the tuple of ALL positions;
+    * with `return_ctx`: the pair of exactly that same payload and the per-sample ctx (`sampleCtx`; the empty ctx
+      for a hand-made wrapper that does not propagate — the constructor always propagates when `return_ctx`),
+    and the instrumentation counter does not depend on `return_ctx`. -/
+theorem packaging_payload (s : Stack) (mw : MW) (c : Nat) (idx : Int) :
+    let payload := if mw.items.length = 1 then Out.bare ((unpacked s mw c idx).headD Val.none)
+                   else Out.tuple (unpacked s mw c idx)
+    (unpacked s mw c idx).length = mw.items.length ∧
+    (mw.returnCtx = false → (getOne s mw c idx).1 = payload) ∧
+    (mw.returnCtx = true → (getOne s mw c idx).1 =
+        Out.withCtx payload (if mw.propagateCtx then sampleCtx s mw c idx else [])) ∧
+    (getOne s mw c idx).2 = (getOne s { mw with returnCtx := !mw.returnCtx } c idx).2 := by
+  intro payload
+  have hlen : (unpacked s mw c idx).length = mw.items.length := by
+    unfold unpacked; rw [writeBack_length]; simp
+  have hp : pack (unpacked s mw c idx) = payload := by
+    show _ = if mw.items.length = 1 then _ else _
+    rw [← hlen]
+    generalize unpacked s mw c idx = u
+    match u with
+    | [] => simp [pack]
+    | [v] => simp [pack]
+    | v :: w :: r => simp [pack]
+  refine ⟨hlen, ?_, ?_, rfl⟩
+  · intro hr; rw [getOne_fst, hr, hp]; rfl
+  · intro hr; rw [getOne_fst, hr, hp]; rfl
+
+/-- **`return_ctx=True` on a constructed wrapper**: `ModeWrapper(ds, mode, return_ctx=True)[i]` is
+    `(ModeWrapper(ds, mode, return_ctx=False)[i], ctx)` — the inner part is EXACTLY what the same mode returns
+    without `return_ctx`, and `ctx` is the per-sample ctx of this request. -/
+theorem packaging_with_ctx (s : Stack) (mode : String) (mw : MW) (h : ctor s mode true = .ok mw)
+    (c : Nat) (idx : Int) :
+    ∃ mw0, ctor s mode false = .ok mw0 ∧ mw0.items = mw.items ∧ mw0.entries = mw.entries ∧
+      (getOne s mw c idx).1 = Out.withCtx (getOne s mw0 c idx).1 (sampleCtx s mw c idx) ∧
+      (getOne s mw c idx).2 = (getOne s mw0 c idx).2 := by
+  unfold ctor at h ⊢
+  by_cases hd : (s.fused.any hasDup || hasDup s.fused.flatten) = true
+  · simp [hd] at h
+  · simp only [hd, Bool.false_eq_true, if_false] at h ⊢
+    cases hc : checkEntries s (!s.fused.isEmpty) (plan s.fused (mode.splitOn " ")) with
+    | error e => rw [hc] at h; cases h
+    | ok u =>
+      rw [hc] at h
+      simp only [Except.ok.injEq] at h
+      subst h
+      exact ⟨_, rfl, rfl, rfl, rfl, rfl⟩
+
+/-- **what the returned ctx holds** (any wrapper): a key that no planned loader records is absent; a recorded key
+    holds the value of the LAST planned loader that records it, for THIS index, with that loader's own call number
+    of THIS request (cf. `ctx_only_this_sample`) -/
+theorem returned_ctx_contents (s : Stack) (mw : MW) (c : Nat) (idx : Int) (key : String) :
+    ((∀ e ∈ mw.entries, recordsKey s e key = false) → ctxGet (sampleCtx s mw c idx) key = none) ∧
+    ((∃ e ∈ mw.entries, recordsKey s e key = true) →
+      ∃ pre e post, mw.entries = pre ++ e :: post ∧ recordsKey s e key = true ∧
+        (∀ e' ∈ post, recordsKey s e' key = false) ∧
+        ctxGet (sampleCtx s mw c idx) key =
+          some (Val.tag (entryName e) (normIndex s idx) (c + (pre.filter isLoading).length))) := by
+  constructor
+  · intro hn
+    unfold sampleCtx
+    rw [c01x_final_ctx_absent s _ _ mw.entries key hn]; rfl
+  · intro hex
+    exact c01x_final_ctx_present s (normIndex s idx) ⟨c, []⟩ mw.entries key hex
+
+/-- non-vacuity: one-item and two-item modes with `return_ctx`, loader `x` records `seed` -/
+example :
+    let s : Stack := ⟨[], [], ["x", "y"], [("x", "seed")], 5, false⟩
+    (getOne s ⟨["x"], [.single "x" 0], true, true⟩ 0 (-1)).1 =
+      .withCtx (.bare (.tag "x" 4 0)) [("seed", .tag "x" 4 0)] ∧
+    (getOne s ⟨["x", "y"], [.single "x" 0, .single "y" 1], true, true⟩ 0 2).1 =
+      .withCtx (.tuple [.tag "x" 2 0, .tag "y" 2 1]) [("seed", .tag "x" 2 0)] := by
+  refine ⟨by rfl, by rfl⟩
+
+
+
+/-! ### when the constructor rejects (the property's domain sentence) -/
+
+/-- the two duplicate assertions, as list properties -/
+theorem dup_check_iff (s : Stack) :
+    (s.fused.any hasDup || hasDup s.fused.flatten) = false ↔ (∀ f ∈ s.fused, f.Nodup) ∧ s.fused.flatten.Nodup := by
+  simp only [Bool.or_eq_false_iff, List.any_eq_false, c01x_hasDup_iff]
+  constructor
+  · rintro ⟨h1, h2⟩
+    exact ⟨fun f hf => (c01x_hasDup_iff f).mp (by simpa using h1 f hf), h2⟩
+  · rintro ⟨h1, h2⟩
+    exact ⟨fun f hf => by simpa using (c01x_hasDup_iff f).mpr (h1 f hf), h2⟩
+
+/-- **acceptance = the property's domain.** The constructor returns a wrapper iff
+    * no declared fused group repeats an operation and no operation is declared in two groups, and
+    * every planned loader name — each mode item loaded on its own, and the joined name of each group that is
+      loaded jointly — is `index`, a `ctx.*` getter, or
+      - for stacks declaring jointly loaded items: implemented on the OUTERMOST wrapper's type (`s.onType`),
+      - for stacks without: reachable through the stack (`s.reachable`);
+    and then the wrapper is the one with `items = mode.split(" ")`, the planner's entries, and
+    `propagate_ctx = return_ctx ∨ dataset.requires_propagate_ctx ∨ (some item is a ctx getter)`. -/
+theorem ctor_accepts_iff (s : Stack) (mode : String) (rc : Bool) (mw : MW) :
+    ctor s mode rc = .ok mw ↔
+      ((∀ f ∈ s.fused, f.Nodup) ∧ s.fused.flatten.Nodup) ∧
+      (∀ e ∈ plan s.fused (mode.splitOn " "), nameAccepted s (!s.fused.isEmpty) (entryName e) = true) ∧
+      mw = ⟨mode.splitOn " ", plan s.fused (mode.splitOn " "), rc,
+            rc || s.requiresPropagateCtx || (plan s.fused (mode.splitOn " ")).any (fun e => isCtx (entryName e))⟩ := by
+  rw [c01x_ctor_cases, ← dup_check_iff, ← c01x_checkEntries_ok]
+  by_cases hd : (s.fused.any hasDup || hasDup s.fused.flatten) = true
+  · simp [hd]
+  · simp only [hd, Bool.false_eq_true, if_false]
+    cases hc : checkEntries s (!s.fused.isEmpty) (plan s.fused (mode.splitOn " ")) with
+    | error e => simp
+    | ok u =>
+      simp only [Except.ok.injEq, true_and]
+      exact eq_comm
+
+/-- **rejection (1)**: the duplicate assertion fires iff a group repeats an operation or two groups share one -/
+theorem ctor_rejects_dup_iff (s : Stack) (mode : String) (rc : Bool) :
+    ctor s mode rc = .error .dupFused ↔ ¬ ((∀ f ∈ s.fused, f.Nodup) ∧ s.fused.flatten.Nodup) := by
+  rw [c01x_ctor_error_iff, ← dup_check_iff]
+  by_cases hd : (s.fused.any hasDup || hasDup s.fused.flatten) = true
+  · simp [hd]
+  · have hd' : (s.fused.any hasDup || hasDup s.fused.flatten) = false := by simpa using hd
+    rw [hd']
+    simp only [Bool.false_eq_true, false_and, false_or, true_and, not_true_eq_false, iff_false]
+    intro hc
+    obtain ⟨_, e', _, _, _, _, herr⟩ := (c01x_checkEntries_error s _ _ _).mp hc
+    unfold rejectErr at herr
+    split at herr <;> simp at herr
+
+/-- **rejection (2), stacks declaring jointly loaded items**: `assert hasattr(type(dataset), "getitem_<n>")` fires
+    with name `n` iff the declaration passes the duplicate checks, the stack declares fused operations, and `n` is
+    the FIRST planned loader name (in loader order) that is neither `index` nor `ctx.*` nor implemented on the
+    outermost wrapper's type -/
+theorem ctor_rejects_notOnType_iff (s : Stack) (mode : String) (rc : Bool) (n : String) :
+    ctor s mode rc = .error (.notOnType n) ↔
+      ((∀ f ∈ s.fused, f.Nodup) ∧ s.fused.flatten.Nodup) ∧ s.fused ≠ [] ∧
+      ∃ pre e post, plan s.fused (mode.splitOn " ") = pre ++ e :: post ∧ entryName e = n ∧
+        (∀ e' ∈ pre, entryName e' = "index" ∨ isCtx (entryName e') = true ∨ entryName e' ∈ s.onType) ∧
+        n ≠ "index" ∧ isCtx n = false ∧ n ∉ s.onType := by
+  rw [c01x_ctor_error_iff, ← dup_check_iff]
+  by_cases hd : (s.fused.any hasDup || hasDup s.fused.flatten) = true
+  · simp [hd]
+  · have hd' : (s.fused.any hasDup || hasDup s.fused.flatten) = false := by simpa using hd
+    rw [hd']
+    simp only [Bool.false_eq_true, false_and, false_or, true_and]
+    rw [c01x_checkEntries_error]
+    by_cases hfe : s.fused = []
+    · simp [hfe, rejectErr]
+    · have hfm : (!s.fused.isEmpty) = true := by simpa using hfe
+      rw [hfm]
+      simp only [rejectErr, if_true, CtorErr.notOnType.injEq, nameAccepted, Bool.or_eq_true, beq_iff_eq,
+        List.contains_iff_mem, Bool.or_eq_false_iff, beq_eq_false_iff_ne, ne_eq, true_and,
+        hfe, not_false_eq_true]
+      constructor
+      · rintro ⟨pre, e, post, heq, hpre, ⟨⟨h1, h2⟩, h3⟩, hn⟩
+        subst hn
+        refine ⟨pre, e, post, heq, rfl, ?_, h1, h2, by simpa using h3⟩
+        intro e' he'
+        rcases hpre e' he' with (h | h) | h
+        · exact Or.inl h
+        · exact Or.inr (Or.inl h)
+        · exact Or.inr (Or.inr h)
+      · rintro ⟨pre, e, post, heq, hn, hpre, h1, h2, h3⟩
+        subst hn
+        refine ⟨pre, e, post, heq, ?_, ⟨⟨h1, h2⟩, by simpa using h3⟩, rfl⟩
+        intro e' he'
+        rcases hpre e' he' with h | h | h
+        · exact Or.inl (Or.inl h)
+        · exact Or.inl (Or.inr h)
+        · exact Or.inr h
+
+
+
+/-- **rejection (3), stacks without fused operations**: `assert hasattr(dataset, "getitem_<n>")` fires with name
+    `n` iff the stack declares no fused operations and `n` is the FIRST mode item (in mode order) that is neither
+    `index` nor `ctx.*` nor reachable through the stack -/
+theorem ctor_rejects_notReachable_iff (s : Stack) (mode : String) (rc : Bool) (n : String) :
+    ctor s mode rc = .error (.notReachable n) ↔
+      s.fused = [] ∧
+      ∃ pre post, mode.splitOn " " = pre ++ n :: post ∧
+        (∀ x ∈ pre, x = "index" ∨ isCtx x = true ∨ x ∈ s.reachable) ∧
+        n ≠ "index" ∧ isCtx n = false ∧ n ∉ s.reachable := by
+  rw [c01x_ctor_error_iff]
+  by_cases hfe : s.fused = []
+  · rw [hfe]
+    have hdup : (([] : List (List String)).any hasDup || hasDup ([] : List (List String)).flatten) = false := by
+      simp [hasDup]
+    simp only [hdup, Bool.false_eq_true, false_and, false_or, true_and]
+    rw [c01x_checkEntries_error_names, c01x_plan_nofused_names]
+    simp only [List.isEmpty_nil, Bool.not_true, rejectErr, Bool.false_eq_true, if_false,
+      CtorErr.notReachable.injEq, nameAccepted, Bool.or_eq_true, beq_iff_eq,
+      List.contains_iff_mem, Bool.or_eq_false_iff, beq_eq_false_iff_ne, ne_eq]
+    constructor
+    · rintro ⟨pre, m, post, heq, hpre, ⟨⟨h1, h2⟩, h3⟩, hn⟩
+      subst hn
+      refine ⟨pre, post, heq, ?_, h1, h2, by simpa using h3⟩
+      intro x hx
+      rcases hpre x hx with (h | h) | h
+      · exact Or.inl h
+      · exact Or.inr (Or.inl h)
+      · exact Or.inr (Or.inr h)
+    · rintro ⟨pre, post, heq, hpre, h1, h2, h3⟩
+      refine ⟨pre, n, post, heq, ?_, ⟨⟨h1, h2⟩, by simpa using h3⟩, rfl⟩
+      intro x hx
+      rcases hpre x hx with h | h | h
+      · exact Or.inl (Or.inl h)
+      · exact Or.inl (Or.inr h)
+      · exact Or.inr h
+  · have hfm : (!s.fused.isEmpty) = true := by simpa using hfe
+    simp only [hfe, false_and, iff_false, hfm]
+    rintro (⟨_, h⟩ | ⟨_, hc⟩)
+    · cases h
+    · obtain ⟨_, e', _, _, _, _, herr⟩ := (c01x_checkEntries_error s _ _ _).mp hc
+      simp [rejectErr] at herr
+
+/-- **the domain sentence, as a sufficient condition in mode terms**: for a stack declaring jointly loaded items
+    (duplicate checks passed), if every mode item and the joined name of every declared group is `index`, a
+    `ctx.*` getter or implemented on the outermost wrapper's type, the constructor accepts — whatever the planner
+    decides to fuse -/
+theorem ctor_accepts_outermost (s : Stack) (mode : String) (rc : Bool)
+    (hnd : (∀ f ∈ s.fused, f.Nodup) ∧ s.fused.flatten.Nodup) (hfu : s.fused ≠ [])
+    (hitems : ∀ it ∈ mode.splitOn " ", it = "index" ∨ isCtx it = true ∨ it ∈ s.onType)
+    (hgroups : ∀ f ∈ s.fused, String.join f = "index" ∨ isCtx (String.join f) = true ∨ String.join f ∈ s.onType) :
+    ∃ mw, ctor s mode rc = .ok mw := by
+  refine ⟨_, (ctor_accepts_iff s mode rc _).mpr ⟨hnd, ?_, rfl⟩⟩
+  have hfm : (!s.fused.isEmpty) = true := by simpa using hfu
+  have hnd' : ∀ f ∈ s.fused, hasDup f = false := fun f hf => (c01x_hasDup_iff f).mpr (hnd.1 f hf)
+  intro e he
+  rw [hfm]
+  simp only [nameAccepted, if_true, Bool.or_eq_true, beq_iff_eq, List.contains_iff_mem]
+  have key : ∀ n, (n = "index" ∨ isCtx n = true ∨ n ∈ s.onType) → ((n = "index" ∨ isCtx n = true) ∨ n ∈ s.onType) := by
+    intro n h; rcases h with h | h | h
+    · exact Or.inl (Or.inl h)
+    · exact Or.inl (Or.inr h)
+    · exact Or.inr h
+  cases e with
+  | single it pos =>
+    have := plan_entries_ok s.fused _ hnd' _ he
+    exact key _ (hitems it (List.mem_of_getElem? this))
+  | fused ops poss =>
+    exact key _ (hgroups ops (plan_fused_mem s.fused _ ops poss he))
+
+/-- the constructor's hypothesis of all `ctor`-based theorems above is satisfiable for EVERY mode string and both
+    `return_ctx` settings (a stack without fused operations through which every mode item is reachable) -/
+example (mode : String) (rc : Bool) :
+    ∃ mw, ctor ⟨[], [], mode.splitOn " ", [], 3, false⟩ mode rc = .ok mw := by
+  refine ⟨_, (ctor_accepts_iff _ mode rc _).mpr ⟨⟨by simp, by simp⟩, ?_, rfl⟩⟩
+  intro e he
+  obtain ⟨p, it, rfl, hit⟩ := plan_isEmpty_mem [] _ rfl e he
+  simp [nameAccepted, entryName, List.mem_of_getElem? hit]
+
+/-- rejection is real: planner output `[class, fused(x,class)]` with only `x`, `class` on the outer type — the joint
+    loader `getitem_xclass` is missing, and it is the first rejected name -/
+example : checkEntries ⟨[["x", "class"]], ["x", "class"], [], [], 3, false⟩ true (plan [["x", "class"]] ["class", "x"]) =
+    .error (.notOnType "xclass") := by
+  have h2 : String.join ["x", "class"] = "xclass" := by decide
+  have h1 : plan [["x", "class"]] ["class", "x"] = [.single "class" 0, .fused ["x", "class"] [1, 0]] := by decide
+  simp [h1, checkEntries, entryName, h2, isCtx]
+
+example : checkEntries ⟨[], [], ["x"], [], 3, false⟩ false (plan [] ["index", "x", "y", "z"]) =
+    .error (.notReachable "y") := by rfl
+
+
+
+/-! ### "all orders of preceding accesses" -/
+
+/-- **preceding accesses do not influence a sample.** The only state the model threads from one request to the next
+    is the instrumentation counter (the ctx is created afresh inside each request). For every wrapper, index and
+    any two histories that made `c` resp. `c + d` loader invocations before, the request returns the same sample —
+    same items, same order, same index, same ctx keys — with every call number raised by `d` (`shiftOut d`), and
+    costs the same number of invocations. -/
+theorem history_only_renumbers (s : Stack) (mw : MW) (c d : Nat) (idx : Int) :
+    getOne s mw (c + d) idx = (shiftOut d (getOne s mw c idx).1, (getOne s mw c idx).2 + d) :=
+  c01x_getOne_shift s mw c d idx
+
+/-- hence the `k`-th element of any index list / slice / iteration is the stand-alone answer `mw[i_k]` (asked at
+    counter `c`), renumbered by the `k` requests that preceded it -/
+theorem index_list_element_standalone (s : Stack) (mw : MW) (c : Nat) (is : List Int) (k : Nat) :
+    (getMany s mw c is).1[k]? = is[k]?.map (fun i => shiftOut (k * callsPer mw) (getOne s mw c i).1) := by
+  rw [c01x_getMany_getElem?]
+  cases is[k]? with
+  | none => rfl
+  | some i => simp only [Option.map_some, c01x_getOne_shift]
+
+example :
+    let s : Stack := ⟨[], [], ["x", "y"], [("x", "seed")], 5, false⟩
+    let mw : MW := ⟨["x", "y"], [.single "x" 0, .single "y" 1], true, true⟩
+    (getOne s mw 0 2).1 = .withCtx (.tuple [.tag "x" 2 0, .tag "y" 2 1]) [("seed", .tag "x" 2 0)] ∧
+    (getOne s mw 7 2).1 = .withCtx (.tuple [.tag "x" 2 7, .tag "y" 2 8]) [("seed", .tag "x" 2 7)] ∧
+    shiftOut 7 (getOne s mw 0 2).1 = (getOne s mw 7 2).1 := by
+  refine ⟨by rfl, by rfl, by rfl⟩
+
 
 end KDVerif.C01
